@@ -1,0 +1,36 @@
+//go:build verif
+
+// Verification contracts (property C06, addition; comment-only, read by /verif/govc).
+// A flush is reported successful (and the produce acknowledged, the published offset advanced) only if BOTH objects
+// are in S3: each upload closure returns exactly the S3 client's answer for its object, and uploadFlush fails when the
+// group of the two closures failed. A segment whose index upload failed must never count as flushed - restore skips
+// index-less segments, so its records would be lost at the next restart.
+
+package storage
+
+//@ func (l *PartitionLog) uploadFlush$1
+//@   ghost gerr error = nil
+//@   ghost gdone bool = false
+//@   at UploadSegment#1 after set gerr = ret0
+//@   at UploadSegment#1 after set gdone = true
+//@   ensures [C06.segment_upload_answer_is_the_closure_result] gdone ==> result == gerr
+//@   ensures [C06.segment_closure_nil_only_after_upload] isNilIface(result) ==> gdone
+
+//@ func (l *PartitionLog) uploadFlush$2
+//@   ghost gerr error = nil
+//@   ghost gdone bool = false
+//@   at UploadIndex#1 after set gerr = ret0
+//@   at UploadIndex#1 after set gdone = true
+//@   ensures [C06.index_upload_answer_is_the_closure_result] gdone ==> result == gerr
+//@   ensures [C06.index_closure_nil_only_after_upload] isNilIface(result) ==> gdone
+
+//@ func (l *PartitionLog) uploadFlush
+//@   ghost gw error = nil
+//@   ghost gwaited bool = false
+//@   at Wait#1 after set gw = ret0
+//@   at Wait#1 after set gwaited = true
+//@   at SetSegment#1 before assert [C06.segment_committed_only_after_both_uploads] gwaited && isNilIface(gw)
+//@   at SetSegment#1 havoc
+//@   at startPrefetch#1 before assert [C06.flush_success_only_after_both_uploads] gwaited && isNilIface(gw)
+//@   at startPrefetch#1 before stop [C06]
+//@   ensures [C06.failed_upload_group_fails_the_flush] gwaited && !isNilIface(gw) ==> !isNilIface(result)
